@@ -280,6 +280,18 @@ def run(ctx):
                 for s_ in cb_.stmts(bb_):
                     if 'assign' in s_ and s_['rv'].get('k') == 'discr' and (s_['rv'].get('adt') or '').endswith('RegularType'):
                         peeks.append(short_loc(s_.get('span')))
+    # ... and what the filter keeps is every variant whose key *differs* from the null key
+    keeps_others = False
+    if b is not None:
+        for cb_ in f.closures_of(b):
+            cl_ = [(bb_, t_) for bb_, t_ in cb_.calls() if not cb_.is_cleanup(bb_)]
+            ne_ = [t_ for _, t_ in cl_ if (t_.get('callee') or '').endswith('PartialEq::ne')]
+            eq_ = [t_ for _, t_ in cl_ if (t_.get('callee') or '').endswith('PartialEq::eq')]
+            nots_ = [1 for bb_ in cb_.live_blocks() for s_ in cb_.stmts(bb_) if 'assign' in s_ and s_['rv'].get('k') == 'un' and s_['rv'].get('op') == 'Not']
+            if cb_.local_ty(0) == 'bool' and (ne_ or eq_):
+                keeps_others = (len(ne_) == 1 and not eq_ and not nots_) or (len(eq_) == 1 and not ne_ and len(nots_) == 1)
+    ctx.ob('SHAPES', 'Option-flatten-keeps-every-other-variant', flat and keeps_others, short_loc(b.span) if b else None,
+           'the filter over the inner union\'s variants keeps those whose key is not the null key: %s' % keeps_others)
     ctx.ob('SHAPES', 'Option-flatten-drops-null-by-key', flat and not peeks, short_loc(b.span) if b else None,
            'while splicing, variants are judged by the kind of their (possibly unfinished) node at: %s' % (sorted(set(peeks)) or 'nowhere (by key)'))
     ctx.ob('SHAPES', 'Option-of-union-is-flattened', flat, short_loc(b.span) if b else None,
